@@ -115,6 +115,7 @@ QSLICES = {
     "C13": ["cap2", "cap_weight2", "cap_const2"],
     "C16": ["cap2", "expiry2", "s_nocap", "s_ttl_tti"],
     "C14": ["cap2", "cap_const2"],
+    "C15": ["cap2", "expiry2", "cap2_tti", "s_cap1", "s_cap2_tti"],
     "C08": ["cap2", "cap_weight2", "cap1_ttl", "s_cap1", "s_cap2_w", "s_cap1_ttl"],
 }
 
@@ -611,7 +612,7 @@ def finish(ctx, level_note_extra=""):
             ctx.known.append({"id": f["id"], "hits": ctx.known_hits[f["id"]],
                               "recorded_history_still_fails": f["id"] in ctx.known_history_fails})
             print("KNOWN-FINDING: property=%s %s: %s (rejections attributed by witness %s: %d)" % (
-                ctx.prop, f["id"], f["what"], "/".join(f.get("witness_tags", [f.get("witness_snapshot", "")])),
+                ctx.prop, f["id"], f["what"], "/".join(f.get("witness_tags", [f.get("witness_snapshot", f.get("witness_pair", ""))])),
                 ctx.known_hits[f["id"]]))
     if ctx.model_failures and not ctx.violations:
         for (name, what, out) in ctx.model_failures:
@@ -626,6 +627,131 @@ def finish(ctx, level_note_extra=""):
         ctx.prop, ctx.tier, ctx.states, ctx.traces_ok, ctx.events + ctx.replay_events, wall))
     shutil.rmtree(ctx.wd, ignore_errors=True)
     return 0
+
+
+def pair_witness(evs, upto):
+    """F13: on the single-threaded cache an extra contains_key found the cache above its capacity
+    (after an in-place update grew an entry) and restored the bound."""
+    for f in V.load_findings():
+        if f.get("status") != "open" or f.get("witness_pair") != "extra_contains_restored_capacity":
+            continue
+        cfg = evs[0]
+        if cfg.get("kind") != "unsync" or cfg.get("cap", -1) < 0:
+            return None
+        cap = cfg["cap"]
+        for i in range(2, min(upto, len(evs) - 1) + 1):
+            e = evs[i]
+            if e.get("extra") and e.get("ev") == "Contains":
+                before = sum(r["w"] for r in (evs[i - 1].get("snap") or {}).get("res", []))
+                after = sum(r["w"] for r in (e.get("snap") or {}).get("res", []))
+                if before > cap >= after:
+                    return f
+    return None
+
+
+def run_c15(ctx, plan):
+    """Purity of contains_key / iter: an action property on Layer I, and metamorphic pairs on the code."""
+    import random
+    stage_mc(ctx, plan.get("mc", []))
+    quick = ctx.tier == "quick"
+    profiles = [("unsync-small", 150, 40), ("unsync-mid", 40, 150), ("sync-small", 150, 40), ("sync-mid", 40, 150),
+                ("sync-eager", 40, 60)]
+    if not quick:
+        profiles = [(p, c * 12, l * 2) for (p, c, l) in profiles]
+    rnd = random.Random(ctx.seed)
+    for i, (profile, count, length) in enumerate(profiles):
+        name = "p%d_%s" % (i, profile)
+        beh_a = os.path.join(ctx.wd, name + ".a.beh.ndjson")
+        beh_b = os.path.join(ctx.wd, name + ".b.beh.ndjson")
+        V.gen_behaviours(profile, ctx.seed * 1000 + 50 + i, count, length, beh_a)
+        behs = V.read_lines(beh_a)
+        nextra = 0
+        with open(beh_a, "w") as fa, open(beh_b, "w") as fb:
+            for b in behs:
+                b["cfg"]["lean"] = True
+                nk = b["cfg"]["nkeys"]
+                # both histories end with the same full observation
+                tail = [{"op": "Contains", "k": k} for k in range(1, nk + 1)] + [{"op": "Iter"}]
+                ops_a = [o for o in b["ops"]] + tail
+                ops_b = []
+                for o in b["ops"]:
+                    while rnd.random() < 0.3:
+                        if rnd.random() < 0.7:
+                            ops_b.append({"op": "Contains", "k": rnd.randint(1, nk), "extra": True})
+                        else:
+                            ops_b.append({"op": "Iter", "extra": True})
+                        nextra += 1
+                    ops_b.append(o)
+                ops_b += tail
+                fa.write(json.dumps({"id": b["id"], "cfg": b["cfg"], "ops": ops_a}) + "\n")
+                fb.write(json.dumps({"id": b["id"], "cfg": b["cfg"], "ops": ops_b}) + "\n")
+        tr_a = os.path.join(ctx.wd, name + ".a.trace.ndjson")
+        tr_b = os.path.join(ctx.wd, name + ".b.trace.ndjson")
+        V.replay_file(beh_a, tr_a)
+        V.replay_file(beh_b, tr_b)
+        cfg = os.path.join(ctx.wd, name + ".cfg")
+        V.write_cfg(cfg, constants={}, postcondition="Consumed")
+        rc, outp, wall = V.run_tlc(ctx.wd, "TracePair.tla", cfg, workers=1, timeout=900, out=name + ".out",
+                                   depth_first=True, xmx="6g", env_extra={"TRACE_A": tr_a, "TRACE_B": tr_b})
+        txt = open(outp, errors="replace").read()
+        m = re.search(r'<<"STATS", "(.*)">>', txt)
+        if rc == -9 or not m:
+            e = re.search(r"Error: (.*)", txt)
+            raise ToolError("pair validation failed (%s): %s" % (outp, e.group(1) if e else "no STATS"))
+        st = json.loads(m.group(1).replace('\\"', '"'))
+        viol = [(int(x.group(1)), int(x.group(2))) for x in re.finditer(r'<<"VIOL", "C15", (-?\d+), (\d+)>>', txt)]
+        log("[pairs] %-24s %6d events %4d pairs, %d extra calls skipped  viol=%d  %.1fs" % (
+            name, st["events"], st["behaviours"], st["extras"], len(viol), wall))
+        ctx.events += st["events"] + st["extras"]
+        ctx.nontrivial += st["extras"]
+        bad = set()
+        bmap = {b["id"]: b for b in V.read_lines(beh_b)}
+        lines = None
+        for (bid, line) in viol:
+            if bid in bad:
+                continue
+            bad.add(bid)
+            if len(ctx.violations) >= 8:
+                continue
+            if lines is None:
+                lines = V.read_lines(tr_b)
+            evs, idx = V.behaviour_events(lines, line)
+            b = bmap.get(bid, {})
+            f13 = pair_witness(evs, idx)
+            if f13 is not None:
+                ctx.known_hits[f13["id"]] = ctx.known_hits.get(f13["id"], 0) + 1
+                continue
+            path = V.write_replay("C15", b.get("cfg"), b.get("ops"), evs, idx, "pair:" + name,
+                                  extra={"note": "ops flagged extra are the inserted observations; the history without them is the other half of the pair"})
+            ctx.violation(path, "pair %d: event %d of the history with extra observations disagrees" % (bid, idx))
+        ctx.traces_ok += st["behaviours"] - len(bad)
+        if len(ctx.samples) < 4:
+            b = V.read_lines(beh_b)[0]
+            ctx.samples.append({"kind": "history with extra contains_key/iter calls (%s)" % profile, "cfg": b["cfg"],
+                                "ops": b["ops"][:30]})
+        for f in (tr_a, tr_b):
+            os.remove(f)
+    # the recorded history of an open finding of this property, while it still fails
+    for f in V.load_findings():
+        if f.get("status") == "open" and "C15" in f.get("properties", []) and "history" in f:
+            hb = os.path.join(ctx.wd, "finding.b.beh.ndjson")
+            ha = os.path.join(ctx.wd, "finding.a.beh.ndjson")
+            ops_b = f["history"]["ops"]
+            ops_a = [o for o in ops_b if not o.get("extra")]
+            with open(ha, "w") as g:
+                g.write(json.dumps({"id": 0, "cfg": f["history"]["cfg"], "ops": ops_a}) + "\n")
+            with open(hb, "w") as g:
+                g.write(json.dumps({"id": 0, "cfg": f["history"]["cfg"], "ops": ops_b}) + "\n")
+            ta, tb = ha + ".trace", hb + ".trace"
+            V.replay_file(ha, ta)
+            V.replay_file(hb, tb)
+            cfg = os.path.join(ctx.wd, "finding.cfg")
+            V.write_cfg(cfg, constants={}, postcondition="Consumed")
+            rc, outp, wall = V.run_tlc(ctx.wd, "TracePair.tla", cfg, workers=1, timeout=300, out="finding.out",
+                                       depth_first=True, env_extra={"TRACE_A": ta, "TRACE_B": tb})
+            if '<<"VIOL", "C15"' in open(outp, errors="replace").read():
+                ctx.known_hits[f["id"]] = ctx.known_hits.get(f["id"], 0) + 1
+                ctx.known_history_fails.add(f["id"])
 
 
 def run_c17(ctx):
@@ -683,6 +809,9 @@ def run_property(prop, tier, seed):
     V.prepare_dir(ctx.wd)
     if prop == "C17":
         run_c17(ctx)
+        return finish(ctx)
+    if prop == "C15":
+        run_c15(ctx, seq_plan(prop, tier))
         return finish(ctx)
     if os.path.isdir(V.REPLAYS):
         for f in os.listdir(V.REPLAYS):
